@@ -425,6 +425,9 @@ def _call(e, cols, n):
         return r
     if name == "len":
         return Cell(FALSE, z3.IntVal(len(xs) if xs is not None else 1), "i")
+    if name == "drop_nulls":
+        cells = xs if xs is not None else [x]
+        return [c for c in cells if not C.is_null_py(c)]
     if name == "n_unique":
         cells = xs if xs is not None else [x]
         # polars counts null as one distinct value
